@@ -386,7 +386,7 @@ func (db *BadgerDB) Get(ctx storage.Context, tk storage.TKey) ([]byte, error) {
 			if err != nil {
 				return err
 			}
-			value, err = item.ValueCopy(nil)
+			value, err = item.ValueCopy([]byte{})
 			return err
 		})
 		return value, err
@@ -401,7 +401,7 @@ func (db *BadgerDB) Get(ctx storage.Context, tk storage.TKey) ([]byte, error) {
 			if err != nil {
 				return err
 			}
-			v, err = item.ValueCopy(nil)
+			v, err = item.ValueCopy([]byte{})
 			return err
 		})
 		storage.StoreValueBytesRead <- len(v)
@@ -559,7 +559,7 @@ func (db *BadgerDB) versionedRange(vctx storage.VersionedCtx, begTKey, endTKey s
 			}
 			if !keysOnly {
 				var err error
-				if kv.V, err = item.ValueCopy(nil); err != nil {
+				if kv.V, err = item.ValueCopy([]byte{}); err != nil {
 					return err
 				}
 				storage.StoreValueBytesRead <- len(kv.V)
@@ -596,7 +596,7 @@ func (db *BadgerDB) unversionedRange(ctx storage.Context, begTKey, endTKey stora
 			}
 			if !keysOnly {
 				var err error
-				if kv.V, err = item.ValueCopy(nil); err != nil {
+				if kv.V, err = item.ValueCopy([]byte{}); err != nil {
 					return err
 				}
 				storage.StoreValueBytesRead <- len(kv.V)
@@ -809,7 +809,7 @@ func (db *BadgerDB) RawRangeQuery(kStart, kEnd storage.Key, keysOnly bool, out c
 			}
 			if !keysOnly {
 				var err error
-				if kv.V, err = item.ValueCopy(nil); err != nil {
+				if kv.V, err = item.ValueCopy([]byte{}); err != nil {
 					return err
 				}
 				storage.StoreValueBytesRead <- len(kv.V)
@@ -1232,7 +1232,7 @@ func (db *BadgerDB) GetBlob(ref string) (v []byte, err error) {
 		if err != nil {
 			return err
 		}
-		v, err = item.ValueCopy(nil)
+		v, err = item.ValueCopy([]byte{})
 		return err
 	})
 
